@@ -47,6 +47,24 @@ def _stack(spec, rng):
         order = spec["order"]
         d = {"pragma": {"patterns": {k: list(pats[k]) for k in order}}}
         return "jcl", [(d, "yaml_keep_order")]
+    if kind == "global_opts":
+        # option names of some rules given at the GLOBAL level (applies to every rule that has the option)
+        db = cfgpool.rule_db()
+        names = sorted({o for m in db.values() for o in m["options"] if o in cfgpool.YESNO or o in ("case", "number_of_spaces", "style")})
+        # plus option-like attributes that base classes carry without advertising them
+        names += ["aggregate_parens_ends_group", "ignore_single_line_aggregates", "generate_statement_ends_group", "if_control_statements_ends_group", "case_control_statements_ends_group", "loop_control_statements_ends_group"]
+        g = {}
+        hidden = ["aggregate_parens_ends_group", "ignore_single_line_aggregates", "generate_statement_ends_group", "if_control_statements_ends_group", "case_control_statements_ends_group", "loop_control_statements_ends_group"]
+        for n in rng.sample(hidden, 3) + rng.sample(sorted(set(names)), 4):
+            if n == "case":
+                g[n] = rng.choice(["upper", "lower"])
+            elif n == "number_of_spaces":
+                g[n] = rng.choice([1, 2])
+            elif n == "style":
+                continue
+            else:
+                g[n] = rng.choice(["yes", "no"]) if n not in hidden else "yes"
+        return "jcl", [({"rule": {"global": g}}, rng.choice(["json", "yaml"]))]
     if kind == "yesno":
         # YAML 1.1 reads unquoted yes/no as booleans
         db = cfgpool.rule_db()
@@ -205,6 +223,7 @@ def _cases(tier, seed):
     nrc = 10 if tier == "quick" else 60
     specs += [{"kind": "rc", "idx": i} for i in harness.sample(rng, range(200), nrc)]
     specs += [{"kind": "severity"}, {"kind": "severity", "style": None}, {"kind": "indent"}, {"kind": "pragma"}, {"kind": "yesno"}, {"kind": "yesno"}]
+    specs += [{"kind": "global_opts", "n": i} for i in range(4 if tier == "quick" else 30)]
     pragma_files = [f for f in corpus if "pragma" in f.lower()]
     for f in corpus:
         if len(pragma_files) > 60:
@@ -220,8 +239,12 @@ def _cases(tier, seed):
     pspecs = [{"kind": "pragma_reordered", "order": o} for o in (["single", "open", "close"], ["close", "single", "open"], ["single", "close", "open"])]
     cases = []
     nf = 6 if tier == "quick" else 25
+    import re as _re
+
+    align_files = [f for f in small if _re.search(r"rule_(4\d\d|02\d)_test_input", f)]
     for s in specs:
-        cases.append({"cfg": s, "files": rng.sample(small, nf), "salt": rng.randrange(1 << 20)})
+        pool_files = align_files if s["kind"] == "global_opts" and align_files else small
+        cases.append({"cfg": s, "files": rng.sample(pool_files, min(len(pool_files), nf * (3 if s["kind"] == "global_opts" else 1))), "salt": rng.randrange(1 << 20)})
     for s in pspecs + [{"kind": "pragma"}]:
         cases.append({"cfg": s, "files": rng.sample(pragma_files, min(len(pragma_files), nf + 4)) if pragma_files else rng.sample(small, nf), "salt": rng.randrange(1 << 20)})
     specs = specs + pspecs
